@@ -812,6 +812,10 @@ impl<'layout, 'out> TableWriter<'layout, 'out> {
                 "Tried to write tpoff with no allocation. {}",
                 res.flags
             );
+            // The value is supplied by the dynamic relocation's addend. We still need to write the
+            // entry, otherwise it would retain whatever bytes an output file that we're updating
+            // in place previously had there.
+            *got_entry = 0;
             self.write_tpoff_relocation::<A>(got_address, 0, address.sub(self.tls.start) as i64)?;
         }
         Ok(())
